@@ -241,6 +241,19 @@ def sc_l2(cfg):
             C.true(p is token and calls[-1][0] == "predict" and calls[-1][2][0] is X, "L2-predict-is-KMeans.predict")
             t = est.transform(X)
             C.true(t is token and calls[-1][0] == "transform" and calls[-1][2][0] is X, "L2-transform-is-KMeans.transform")
+        # history: the same object trained with norm='L1', switched to 'L2' (set_params) and trained again
+        # must dispatch on its CURRENT norm
+        import warnings as _w
+
+        with _w.catch_warnings():
+            _w.simplefilter("ignore")
+            h = km.KMeansL1L2(n_clusters=2, norm="L1", n_init=1, random_state=0).fit(numpy.array([[0.0], [1.0], [5.0], [6.0]]))
+        h.set_params(norm="L2")
+        del calls[:]
+        with harness.patched(km.KMeans, fit=rec("fit"), predict=rec("predict"), transform=rec("transform")):
+            h.fit(X)
+            C.true([c[0] for c in calls] == ["fit"], "L2-after-L1-on-the-same-object:fit-delegates-to-KMeans")
+            C.true(h.predict(X) is token and h.transform(X) is token, "L2-after-L1-on-the-same-object:predict/transform-delegate-to-KMeans")
         # and on real data: identical to scikit-learn's KMeans with the same parameters and seed
         from sklearn.cluster import KMeans
 
